@@ -761,7 +761,7 @@ func deriveSchemas(base *sDoc, types *sTypes, k int, seed int64) []schemaCase {
 		return &d, &t
 	}
 	var out []schemaCase
-	kinds := []string{"remove-optional-field", "swap-members", "rename-field", "add-field", "toggle-required", "retype-field", "remove-message", "add-group-member", "reorder-header-trailer"}
+	kinds := []string{"remove-optional-field", "swap-members", "rename-field", "add-field", "toggle-required", "retype-field", "remove-message", "add-group-member", "reorder-header-trailer", "respell-types"}
 	for i := 0; i < k; i++ {
 		d, t := clone()
 		kind := kinds[i%len(kinds)]
@@ -856,6 +856,23 @@ func deriveSchemas(base *sDoc, types *sTypes, k int, seed int64) []schemaCase {
 			d.Header.Members = mv(d.Header.Members, "MsgType", 4+rng.Intn(3))
 			d.Trailer.Members = mv(d.Trailer.Members, "CheckSum", 1)
 			desc += " MsgType and CheckSum moved inside header/trailer"
+		case "respell-types":
+			// the same type mapping with the type names spelled in mixed case, consistently in the
+			// schema and in the mapping (BOOLEAN -> Boolean, ...)
+			re := map[string]string{}
+			for _, x := range t.Types {
+				if len(x.Name) > 1 {
+					n := x.Name[:1] + strings.ToLower(x.Name[1:])
+					re[x.Name] = n
+					x.Name = n
+				}
+			}
+			for _, f := range d.Fields {
+				if n, ok := re[f.Type]; ok {
+					f.Type = n
+				}
+			}
+			desc += " all type names"
 		case "add-group-member":
 			var grp *sMember
 			var find func(ms []*sMember)
@@ -1113,9 +1130,9 @@ func c12Check(tier string, ev *Evidence) ([]string, error) {
 			cases = append(cases, schemaCase{name: "big12", doc: &small, types: bigTypes, description: "first 12 messages of generator/testdata/fix.4.4.xml"})
 		}
 	}
-	k := 9
+	k := 10
 	if tier != "quick" {
-		k = 27
+		k = 30
 	}
 	cases = append(cases, deriveSchemas(srcDoc, srcTypes, k, seed)...)
 	for _, sc := range cases {
